@@ -278,7 +278,19 @@ impl Property for C09 {
             Case::Raw { bk, num, den } => {
                 let (num, den) = (&num.0 % &f.m, &den.0 % &f.m);
                 let (flag, y) = call(*bk, &num, &den);
-                oracle_ratio(who(*bk), &num, &den, flag, &y, ctx)
+                oracle_ratio(who(*bk), &num, &den, flag, &y, ctx)?;
+                // the routine is a function of its arguments: a short history of calls that share a numerator or a
+                // denominator with the first one (any memo, lazily built table or leftover state would show here)
+                let one = N::one();
+                for (n2, d2) in [(one.clone(), den.clone()), (num.clone(), one.clone()), (den.clone(), num.clone()), (num.clone(), den.clone()), (one.clone(), den.clone())] {
+                    let (flag2, y2) = call(*bk, &n2, &d2);
+                    oracle_ratio(who(*bk), &n2, &d2, flag2, &y2, ctx)?;
+                }
+                let (flag3, y3) = call(*bk, &num, &den);
+                if flag3 != flag || y3 != y {
+                    ctx.report(format!("C09|{}|not-a-function", who(*bk)), format!("the same call sqrt_ratio({num:x}, {den:x}) gives a different result after other calls"))?;
+                }
+                Ok(())
             }
             Case::Sqrt { f: fid, x, mode } => {
                 let fl = fid.fld();
